@@ -74,7 +74,8 @@ def run(ck, rng):
         items = uniq
         build = random_build(rng, items)
         doc = spell(items, gen_spelling(rng, items))
-        bf = rng.choice(BF_CHOICES)
+        # + branch strings whose continuation strings share characters with the connectors
+        bf = rng.choice(BF_CHOICES + [(b"+-", b" -", b"|-", b"|-"), (b"`-", b" ", b"|-", b"|")])
         enc = rng.choice("ddjyt")
         dep = rng.choice(["", "", "d"])
         k = rng.choice([None, None] + list(range(len(items))))
@@ -111,7 +112,7 @@ def run(ck, rng):
                 fdoc = spell(fitems, plain_spelling(fitems))
                 exts = rng.choice(["-", "2e676f", "2e676f+2e6d64"])
                 dry = rng.choice("001")
-                pre = "d:746774" + rng.choice(["", "", "+d:" + hx(b"tgt/" + fitems[0][1]) if b"/" not in fitems[0][1] and fitems[0][1] not in (b".", b"..") else ""])
+                pre = "d:746774" + rng.choice(["", "", "+d:" + hx(b"tgt/" + fitems[0][1]) if b"/" not in fitems[0][1] and b"\x00" not in fitems[0][1] and len(fitems[0][1]) <= 255 and fitems[0][1] not in (b".", b"..") else ""])
                 op = rng.choice(["hist", "hist", "mhist"])
                 if rng.random() < 0.6:
                     # two histories (each starts in a fresh jail), compared with each other
@@ -146,6 +147,10 @@ def run(ck, rng):
         ck.count(name)
         parts = impl[i].split("|")
         bad = None
+        if any(pp.split(" ")[0] in ("panic", "crash", "timeout", "skipped") for pp in parts) or len(parts) < 2:
+            ck.violation({"property": "C03", "kind": "abnormal", "class": "abnormal|" + name, "case": cases[i], "got": impl[i][-300:],
+                          "why": "a call did not return normally"})
+            continue
         if kind == "pair":
             if parts[-2] != parts[-1]:
                 bad = "From-Root gives %s, From-Markdown gives %s" % (parts[-2][:200], parts[-1][:200])
